@@ -67,7 +67,9 @@ def _get_short_dimension_names_new(
             short_name = potential_dim_names[param_name]
 
             if short_name in duplicate_dim_names:
-                new_short_name: str = _get_short_name_with_model(param_name)
+                new_short_name: str = _get_short_name_with_model(
+                    param_name, other_names=list(types)
+                )
                 dim_names[param_name] = new_short_name
 
             else:
